@@ -12,7 +12,7 @@ from packaging.utils import canonicalize_name
 
 from simbox import gen as G
 from simbox import world as W
-from simbox.codetf_check import check_report
+from simbox.codetf_check import STRUCTURAL, check_report
 from simbox.framework import Check
 from simbox.normalize import results_by_codemod
 from simbox.util import dec
@@ -342,7 +342,7 @@ class C14(Check):
         # nothing could be updated: run succeeds and says so
         if src_changed and not written:
             res = (results_by_codemod(first["report"]).get(cid) or [{}])[0]
-            probs = check_report(first, outcomes["orig"])
+            probs = [p for p in check_report(first, outcomes["orig"]) if p[0] in STRUCTURAL]
             if probs:
                 add("invalid-report", probs[0][0], {"problems": probs[:2]})
             desc = res.get("description", "")
